@@ -275,7 +275,11 @@ PROPS["C10"] = dict(
             dict(name="mc-tsan2", driver="mc", flavour="tsan", args=["--prop", "C10"], tiers=["quick"],
                  quick=["--scenarios", "D15,D10,D11", "--bound", "2"]),
             dict(name="mc-asan", driver="mc", flavour="asan", args=["--prop", "C10"],
-                 quick=["--scenarios", "D3,D8,D11,D15", "--bound", "2"], thorough=["--scenarios", "D1f,D3,D8,D11,D15", "--bound", "2", "--io", "1"])],
+                 quick=["--scenarios", "D3,D8,D11,D15", "--bound", "2"], thorough=["--scenarios", "D1f,D3,D8,D11,D15", "--bound", "2", "--io", "1"]),
+            # scheduling points also before every condition signal/broadcast (hooks bit 8): the window between an
+            # unlock and the signal that follows it, e.g. the thread-pool teardown hand-shake at close
+            dict(name="mc-asan-signal", driver="mc", flavour="asan", args=["--prop", "C10", "--hooks", "11"],
+                 quick=["--scenarios", "D8,D1,D6,D9", "--bound", "2"], thorough=["--scenarios", "D8,D1,D1f,D3,D6,D9,D15", "--bound", "2"])],
 )
 PROPS["C04"] = dict(
     level="model_checking",
@@ -470,3 +474,18 @@ for _p, _cls in (("C02", 0x7f), ("C03", 0x02), ("C05", 0x7f)):
                                     quick=["--cfgs", "B2,reuse=1", "--len", "1", "--nested", "0", "--scripted", "0"],
                                     thorough=["--cfgs", "B2,reuse=1", "--len", "2", "--nested", "1", "--scripted", "0"]))
     PROPS[_p]["rule"] += "; and (c) a reused write-ahead log that ends 2-4 bytes before a block boundary (no room for a record header)"
+
+# C07 "while later writes, compactions and file deletions proceed": iterator scanners racing batch writers, a flush and a
+# manual compaction; every scan must equal the database at ONE point of a sequential order (linearizability oracle)
+PROPS["C07"]["stages"].append(dict(name="mc-iter", driver="mc", flavour="asan", args=["--prop", "C07"], weight=0.3,
+                                   quick=["--scenarios", "D2b,D3,D11", "--bound", "2"],
+                                   thorough=["--scenarios", "D2b,D3,D11,D2", "--bound", "3"]))
+PROPS["C07"]["rule"] += ("; concurrent stage: iterator scans racing a batch writer + batch deleter (D2b), a writer + manual compaction over three levels (D3) and a flush that retires files (D11), "
+                         "every schedule within 2 -> 3 deviations: each scan yields the database at one point of a sequential order of the operations (a batch wholly in or out, in order, status OK)")
+PROPS["C07"]["assumptions"] = PROPS["C07"]["assumptions"] + E1_ASSUME[:3]
+
+PROPS["C05"]["stages"].append(dict(name="mc-crash", driver="mc", flavour="asan", args=["--prop", "C05", "--crash", "1"], weight=0.4,
+                                   quick=["--scenarios", "D14,D1f", "--bound", "2"], thorough=["--scenarios", "D14,D1f,D3,D6", "--bound", "2"]))
+PROPS["C05"]["rule"] += ("; concurrent stage: every journal index of every schedule (bound 2) of a writer switching the memtable during a compaction (D14) / a flush in flight (D1f) is a crash point: "
+                         "recovery of each image succeeds and never recreates a write-ahead log that the image holds (the number of a log still to be replayed is not handed out again)")
+PROPS["C05"]["assumptions"] = PROPS["C05"]["assumptions"] + E1_ASSUME[:3]
